@@ -120,6 +120,57 @@ def tags_of(case):
     return t
 
 
+PROBES = ["MODE1", "MODE2", "PASS1", "PBAD", "TA", "TB", "ARCH", "FROM_FLAG", "IMPL", "U", "V", "W_ab", "W_cd", "HDR_M1"]
+
+
+def end_to_end(d, case, modecat, stats):
+    """main.c tests every macro any configuration could define; m1.h (a mode's forced include) defines HDR_M1"""
+    from codebasin import config
+    h = case["hist"][0]
+    exp = case["expect"][0]
+    lines = []
+    want = {}
+    defined = set()
+    for c in exp["configs"]:
+        defs = list(c["defines"])
+        files = list(c["ifiles"])
+        for mn in c["modes"]:
+            defs += modecat[mn]["defines"]
+            files += modecat[mn]["ifiles"]
+        defined |= {x.split("=")[0] for x in defs}
+        if "m1.h" in files:
+            defined.add("HDR_M1")
+    for pr in PROBES:
+        lines.append(f"#ifdef {pr}")
+        lines.append(f"int probe_{pr};")
+        want[len(lines)] = pr in defined
+        lines.append("#endif")
+    with open(os.path.join(d, "main.c"), "w") as f:
+        f.write("\n".join(lines) + "\n")
+    with open(os.path.join(d, "m1.h"), "w") as f:
+        f.write("#define HDR_M1 1\n")
+    argv = []
+    for t in h["argv"]:
+        argv += tok_argv(t)
+    with open(os.path.join(d, "cc.json"), "w") as f:
+        json.dump([{"directory": d, "file": "main.c", "arguments": [h["name"]] + argv + ["-c", "main.c"]}], f)
+    stats["evals"] += 1
+    try:
+        ents = config.load_database(os.path.join(d, "cc.json"), d)
+    except Exception as e:  # noqa
+        return (f"exception:{type(e).__name__}", f"load_database for {h['name']} {argv}: {e}")
+    st, cb, logs, err = cbi.run_find(d, {"p": ents})
+    if err is not None:
+        return (f"exception:{err[0]}", f"finder.find for {h['name']} {argv}: {err[1]}")
+    la = cbi.line_attr(st, os.path.join(d, "main.c"))
+    for ln, w in want.items():
+        if (ln in la and "p" in la[ln]) != w:
+            return ("attribution-not-union-of-passes",
+                    f"{h['name']} {argv}: line `{lines[ln - 1]}` used={ln in la and 'p' in la[ln]} but the union of the expected "
+                    f"passes {[c['pass'] for c in exp['configs']]} says {w}")
+    return None
+
+
 def check_chunk(args):
     cases, workdir = args
     import warnings
@@ -195,6 +246,9 @@ def check_chunk(args):
                     bad = ("outcome-not-reported", f"{name}: unknown compiler not reported: {msgs[:200]}")
                 if bad:
                     break
+            # end to end: a line is attributed to the platform iff ANY pass of the command uses it
+            if not bad and case["expect"][0]["outcome"] in ("ok", "unknown"):
+                bad = end_to_end(d, case, modecat, stats)
             if bad:
                 fails.append(dict(layer="G", tags=sorted(tg), symptom=bad[0],
                                   detail=bad[1] + f"\nhistory={[(h['name'], [tok_argv(t) for t in h['argv']]) for h in case['hist']]}",
